@@ -119,3 +119,128 @@ def ctl_task_active_completes(ctx):
     new = _new_findings(ctx, p2, [T.rule_T4a, T.rule_T4b])
     return ("task_active_completes", bool(new),
             "running/%s -> succeeded: %d new finding(s)" % (pick, len(new)))
+
+
+# ---------------------------------------------------------------------- effect / ownership
+def _edit_control(ctx, name, relpath, qual, pred, repl, rule_fns, limit=1, what=""):
+    """Apply an AST edit inside definition `qual`, re-run rule_fns (ctx -> RuleResult) and
+    require a finding that the unedited tree does not have."""
+    try:
+        p2 = M.rewrite_in(ctx.prog, relpath, qual, pred, repl, limit=limit)
+    except M.EditFailed as e:
+        return (name, True, "skipped: %s" % e)
+    base = set()
+    for fn in rule_fns:
+        for f in fn(ctx).findings:
+            base.add(f.key)
+    c2 = ctx.derive(p2)
+    new = []
+    for fn in rule_fns:
+        for f in fn(c2).findings:
+            if f.key not in base:
+                new.append(f)
+    return (name, bool(new), "%s: %d new finding(s)%s" % (
+        what or name, len(new), (" e.g. " + new[0].rule + " " + new[0].construct[:60]) if new else ""))
+
+
+COND = "orquesta/conducting.py"
+MACH = "orquesta/machines.py"
+
+
+def ctl_drop_ctx_copy(ctx):
+    from sa import effects as E
+    pred, repl = M.unwrap_call("deepcopy")
+    return _edit_control(ctx, "drop_ctx_copy", COND, "WorkflowConductor.get_task_context", pred, repl,
+                         [E.rule_O2, E.rule_F2, E.rule_F5],
+                         what="merge stored context deltas without copying")
+
+
+def ctl_share_record_lists(ctx):
+    from sa import effects as E
+    pred, repl = M.unwrap_call("deepcopy")
+    return _edit_control(ctx, "share_record_lists", COND, "WorkflowConductor.add_task_state", pred, repl,
+                         [E.rule_O1], what="record created from the staged entry's own lists")
+
+
+def ctl_sequence_insert(ctx):
+    import ast
+    from sa import effects as E
+
+    def pred(n):
+        return (isinstance(n, ast.Call) and isinstance(n.func, ast.Attribute)
+                and n.func.attr == "append" and "sequence" in ast.unparse(n.func.value))
+
+    def repl(n):
+        n.func.attr = "insert"
+        n.args = [ast.Constant(value=0)] + n.args
+        return n
+
+    return _edit_control(ctx, "sequence_insert", COND, "WorkflowConductor.add_task_state", pred, repl,
+                         [E.rule_F1], what="record inserted at the front of the sequence")
+
+
+def ctl_serialize_no_copy(ctx):
+    from sa import effects as E
+    pred, repl = M.unwrap_call("deepcopy")
+    return _edit_control(ctx, "serialize_no_copy", COND, "WorkflowState.serialize", pred, repl,
+                         [E.rule_O3], what="serialize returns a live container")
+
+
+def ctl_drop_restore_of_attr(ctx):
+    import ast
+    from sa import effects as E
+
+    def pred(n):
+        return (isinstance(n, ast.Assign) and len(n.targets) == 1
+                and isinstance(n.targets[0], ast.Attribute) and n.targets[0].attr == "reruns")
+
+    return _edit_control(ctx, "drop_restore_of_attr", COND, "WorkflowState.deserialize", pred,
+                         lambda n: None, [E.rule_S1], what="deserialize no longer restores reruns")
+
+
+def ctl_drop_join_check(ctx):
+    import ast
+    from sa import effects as E
+
+    def pred(n):
+        return isinstance(n, ast.If) and "get_unreachable_barriers" in ast.unparse(n) and \
+            "SUCCEEDED" in ast.unparse(n.test)
+
+    return _edit_control(ctx, "drop_join_check", MACH, "WorkflowStateMachine.process_workflow_event",
+                         pred, lambda n: None, [E.rule_F7],
+                         what="resume completion without the unreachable-join check")
+
+
+def ctl_unvalidated_status_write(ctx):
+    import ast
+    from sa import effects as E
+
+    def pred(n):
+        return isinstance(n, ast.If) and "is_transition_valid" in ast.unparse(n.test)
+
+    return _edit_control(ctx, "unvalidated_status_write", COND, "WorkflowConductor._set_workflow_status",
+                         pred, lambda n: None, [E.rule_F4], what="status setter without validation")
+
+
+def ctl_rerun_write_before_reject(ctx):
+    """Move the second validation of request_workflow_rerun after the first write."""
+    import ast
+    from sa import effects as E
+
+    def editor(tree):
+        d = M.find_def(tree, "WorkflowConductor.request_workflow_rerun")
+        idx = [i for i, s in enumerate(d.body) if isinstance(s, ast.If) and any(
+            isinstance(x, ast.Raise) for x in ast.walk(s))]
+        if len(idx) < 2:
+            raise M.EditFailed("request_workflow_rerun has fewer than two rejecting checks")
+        chk = d.body.pop(idx[1])
+        d.body.append(chk)
+
+    try:
+        p2 = M.apply(ctx.prog, COND, editor)
+    except M.EditFailed as e:
+        return ("rerun_write_before_reject", True, "skipped: %s" % e)
+    base = {f.key for f in E.rule_F6(ctx).findings}
+    new = [f for f in E.rule_F6(ctx.derive(p2)).findings if f.key not in base]
+    return ("rerun_write_before_reject", bool(new),
+            "rerun validation moved after the writes: %d new finding(s)" % len(new))
